@@ -24,6 +24,7 @@ enum Op {
     Use(usize),
     Poison(usize),
     Cancel(usize),
+    CancelThenPanic(usize),
     Break(usize),
     Return(usize),
 }
@@ -250,7 +251,8 @@ pub fn history(backend: Backend, seed: u64, idx: u64) -> Case {
                     match x {
                         30..=44 => Op::Use(i),
                         45..=56 => Op::Poison(i),
-                        57..=62 => Op::Cancel(i),
+                        57..=59 => Op::Cancel(i),
+                        60..=62 => Op::CancelThenPanic(i),
                         63..=74 => Op::Break(i),
                         _ => Op::Return(i),
                     }
@@ -298,6 +300,39 @@ pub fn history(backend: Backend, seed: u64, idx: u64) -> Case {
                         AnyConn::Diesel(c) => drop(std::pin::pin!(c.interact(|_| std::thread::sleep(Duration::from_micros(200))))),
                     }
                     log.push(format!("cancelled interaction on #{}", held[i].1));
+                }
+                Op::CancelThenPanic(i) => {
+                    // the interaction is abandoned by the caller while its closure runs; the closure then panics
+                    if bad.contains(&held[i].1) {
+                        continue;
+                    }
+                    let started = Arc::new(std::sync::atomic::AtomicBool::new(false));
+                    let st = started.clone();
+                    let body = move || {
+                        st.store(true, Ordering::SeqCst);
+                        std::thread::sleep(Duration::from_micros(300));
+                        std::panic::panic_any(InjectedPanic(16));
+                    };
+                    match &held[i].0 {
+                        AnyConn::Sqlite(c) => drop(tokio::time::timeout(Duration::from_micros(50), c.interact(move |_| -> () { body() })).await),
+                        AnyConn::R2d2(c) => drop(tokio::time::timeout(Duration::from_micros(50), c.interact(move |_| -> () { body() })).await),
+                        AnyConn::Diesel(c) => drop(tokio::time::timeout(Duration::from_micros(50), c.interact(move |_| -> () { body() })).await),
+                    }
+                    for _ in 0..2000 {
+                        if started.load(Ordering::SeqCst) {
+                            break;
+                        }
+                        tokio::time::sleep(Duration::from_micros(250)).await;
+                    }
+                    if started.load(Ordering::SeqCst) {
+                        // barrier: the next interaction on the same connection can only start once the
+                        // panicking closure has let go of the connection
+                        let _ = held[i].0.use_ok().await;
+                        let _ = bad.insert(held[i].1);
+                        let _ = bad_fn.lock().unwrap().insert(held[i].1);
+                        log.push(format!("abandoned interaction on #{} panicked", held[i].1));
+                        *counters.entry("cancelled_then_panicked".into()).or_insert(0) += 1;
+                    }
                 }
                 Op::Break(i) => {
                     let m = held[i].1;
